@@ -135,6 +135,14 @@ def check(ctx):
         not any(n.endswith(("Number::as_f64", "Number::as_i64")) for n in names) and not casts
     ctx.require(okn, "R-FLOW", "index:number-to-u32", "as_u64 + u32::try_from only", "try_number_to_u32 now uses %s and casts %s: a fractional or negative number can be accepted as an index"
                 % (sorted({n.split("::")[-1] for n in names if "Number::as_" in n}), casts))
+    # `.length` of a canon map counts what iteration over the map yields — its key-value pairs (the ordered `values`
+    # list), like `.length` of a canon stream counts its elements — not the number of distinct keys of the lookup index
+    ctx.clause("R-SIBLING CanonStreamMap::len and ::iter both range over the ordered pair list (`values`), not over the key index")
+    ln_, it_ = F.fn("canon_stream_map::CanonStreamMap::len"), F.fn("canon_stream_map::CanonStreamMap::iter")
+    el, ei = Prov(ln_).local(0), Prov(it_).local(0)
+    okl = lib.mentions_field(el, "values") and not lib.mentions_field(el, "map") and lib.mentions_field(ei, "values") and not lib.mentions_field(ei, "map")
+    ctx.require(okl, "R-SIBLING", "canon-map:length-counts-pairs", "len = values.len(), iter = values.iter()",
+                "CanonStreamMap::len is `%s` while iteration is `%s`: `#%%map.length` no longer counts the pairs that selection and iteration see" % (show(el)[:80], show(ei)[:80]))
     fl = F.fn("lambda_applier::applier::select_by_functor_from_scalar")
     flp = Prov(fl)
     names = [c.path for c in fl.calls]
